@@ -1,16 +1,14 @@
 (** C11: the reference trimming, the partial theorem in the property's words, and the
     concrete witnesses against the full statement. *)
 From Coq Require Import List NArith ZArith Bool Lia.
-From Cicada Require Import Base.Chars Base.Tag Base.Regex Gen.ShellRegexes Model.Expand Model.ExpandRef
+From Cicada Require Import Base.Chars Base.Tag Base.Regex Gen.ShellRegexes Model.Expand Model.ExpandRef Model.SubstVariant
   Proofs.ExpandBasics Proofs.SubstProofs.
 Import ListNotations.
 From Coq Require String.
 Import String.StringSyntax.
 Local Open Scope N_scope.
 
-(** what the property asks for: trailing newlines removed, nothing else *)
-Fixpoint drop_nl (s : str) : str := match s with 10 :: r => drop_nl r | _ => s end.
-Definition strip_nl (s : str) : str := rev (drop_nl (rev s)).
+(** what the property asks for -- trailing newlines removed, nothing else -- is [strip_nl] of Model/SubstVariant.v *)
 
 (** the words the statements speak about: head $( cmd ) tail with unambiguous boundaries *)
 Definition word_ok (head cmd tail : str) : Prop :=
